@@ -4,6 +4,7 @@ package main
 import (
 	"fmt"
 	"os"
+	"runtime/debug"
 	"sort"
 
 	"github.com/trustbloc/logutil-go/pkg/log"
@@ -54,6 +55,17 @@ func main() {
 			os.Setenv("VERIF_REPLAY", os.Args[i+1])
 		}
 	}
-	def.fn(c)
+	curCtx = c
+	hx.PanicHook = func(item int, r interface{}, stack string) {
+		c.Violation(fmt.Sprintf("%s library code panicked in-process (work item %d): %v", id, item, r), map[string]interface{}{"panic": fmt.Sprint(r), "stack": stack})
+	}
+	func() {
+		defer func() {
+			if r := recover(); r != nil {
+				c.Violation(fmt.Sprintf("%s library code panicked in-process: %v", id, r), map[string]interface{}{"panic": fmt.Sprint(r), "stack": string(debug.Stack())})
+			}
+		}()
+		def.fn(c)
+	}()
 	os.Exit(c.Finish())
 }
